@@ -26,20 +26,20 @@ CHECKS = {
         "DESIGN.md §4 C09",
     ),
     "C10": (
-        "exhaustive enumeration: all dates x 12 units (Date), all dates x critical times x 12 units (Timestamp, OracleDate), every second of selected days, against per-unit boundary predicates; explicit exploration of call histories (depth <= 3 on fresh threads, alternation with anchors over all dates, first call of a fresh process)",
-        "Truncation of every date (and every date at every critical time, and every second of 29 selected days) for each of the 12 units on the three types is compared with 'the latest boundary <= input', where boundaries come from one independent predicate per unit evaluated by the day-counting walker; idempotence, never-forward and monotonicity are asserted as well; failure is required exactly when no boundary exists at or after 0001-01-01.",
+        "exhaustive enumeration: all dates x 12 units (Date), all dates x critical times x 12 units (Timestamp, OracleDate), every second of selected days, against per-unit boundary predicates; explicit exploration of call histories (depth <= 3 on fresh threads, alternation with anchors over all dates, first call of a fresh process); every microsecond of three one-minute windows around decision points (thorough: of one hour across the epoch, and every whole second of one full 400-year cycle on the Oracle-style date)",
+        "Truncation of every date (and every date at every critical time, and every second of 29 selected days) for each of the 12 units on the three types is compared with 'the latest boundary <= input', where boundaries come from one independent predicate per unit evaluated by the day-counting walker; idempotence, never-forward and monotonicity are asserted as well; failure is required exactly when no boundary exists at or after 0001-01-01. Rounding / truncation rules that depend on the time of day are periodic in the minute, the hour and the day, so the complete minute (hour) at microsecond resolution and the complete 400-year cycle (146,097 days, a whole number of weeks) at second resolution are complete sub-spaces, not samples.",
         "Trusted: the per-unit boundary predicates in refmodel/calendar.rs and the walker.",
         "DESIGN.md §4 C10",
     ),
     "C11": (
-        "exhaustive enumeration: same spaces as C10 with the Round methods, against boundary predicates plus the documented midpoints; the same call-history exploration as C10",
+        "exhaustive enumeration: same spaces as C10 with the Round methods, against boundary predicates plus the documented midpoints; the same call-history exploration as C10; every microsecond of three one-minute windows around decision points (thorough: of one hour across the epoch, and every whole second of one full 400-year cycle on the Oracle-style date)",
         "Rounding of every date / every date at every critical time (both sides of 12:00, :30, :30s) / every second of selected days, 12 units, three types, compared with T/N from the independent boundary predicates and the documented midpoint per unit; boundary inputs must be unchanged; monotonicity is asserted along the sweep (except ISO year); failure required exactly when the chosen boundary is outside the range. Shortened weeks only require membership in {T, N}, monotonicity and Date/Timestamp agreement.",
         "Trusted: boundary predicates, midpoint table typed from the trait documentation. One open known finding (F2, round_century for years divisible by 100) is suppressed by signature.",
         "DESIGN.md §4 C11",
     ),
 
     "C02": (
-        "explicit-state BFS closure over the complete op table (depth 3 quick / 4 thorough, deduplicated by value) plus a flat sweep of all dates x 25 operations x 3 types; invariant: every returned value in its documented range",
+        "explicit-state BFS closure over the complete op table (depth 3 quick / 4 thorough, deduplicated by value) plus a flat sweep of all dates x 25 operations x 3 types; invariant: every returned value in its documented range; integers of every width handed over by serde's value deserializers and raw bincode integers: an out-of-range number must be an error, never a wrapped or clamped value",
         "From boundary pools of the six types every safe public operation (constructors, conversions, all add/sub variants, last day of month, 24 trunc/round methods, negate, float scaling, format->parse) is applied with every operand of the operand alphabets, successors are deduplicated and expanded again to the depth bound; every returned value must lie inside the documented range of its type, and wherever an exact i128 / calendar result exists and lies outside the range the call must fail instead of returning a wrapped or clamped value. The flat sweep applies all trunc/round/last-day operations to every date on the three types.",
         "Trusted: documented ranges typed in from the property; reference steps in optable.rs. States not reachable within the depth bound from the pools are not covered; float-operand operations only get the range invariant here (C08/C14/C16 decide their values).",
         "DESIGN.md §4 C02",
@@ -51,7 +51,7 @@ CHECKS = {
         "DESIGN.md §4 C08",
     ),
     "C12": (
-        "exhaustive enumeration: every second of the day x boundary microseconds x interval alphabet x add/sub; pool^2 differences; interval->time conversion; mixed comparisons, against rem_euclid in i128",
+        "exhaustive enumeration: every second of the day x boundary microseconds x interval alphabet x add/sub; pool^2 differences; interval->time conversion; mixed comparisons, against rem_euclid in i128; thorough: the complete product of every second of the day x every whole-second interval within +/-1 day, and every pair of seconds for the difference",
         "Every second of the day (at µs 0, 1, 999999) is combined with every member of the interval alphabet (0, +/-1 µs, +/-1 day -/+ 1 µs, whole days, the range limits, seed-derived values) through add and sub on the real code and compared with (time +/- interval) mod 24h; all ordered pairs of the time pool and every second against midnight/noon/last µs give the exact signed difference; every second within +/-2 days converts to |interval| mod 1 day; all six comparison operators in both argument orders equal the numeric comparison.",
         "Trusted: i128 rem_euclid. Intervals outside the alphabet and the +/-2-day second grid are not enumerated.",
         "DESIGN.md §4 C12",
@@ -63,14 +63,14 @@ CHECKS = {
         "DESIGN.md §4 C13",
     ),
     "C14": (
-        "exhaustive cross product of receiver pools x a float operand alphabet (special values, integers, dyadic and decimal grids, tiny/huge, signed zero, infinities, NaN) x mul/div, judged by exact rational arithmetic with a 2^-52 band",
+        "exhaustive cross product of receiver pools x a float operand alphabet (special values, integers, dyadic and decimal grids, tiny/huge, signed zero, infinities, NaN) x mul/div, judged by exact rational arithmetic with a 2^-52 band; complete product of a window of counts (+/-120, thorough +/-1200, as months and microseconds) x every multiple of 1/16 in +/-32 (thorough +/-256)",
         "Each (receiver, operand, operation) triple runs on the real code; the reference decodes the double into sign/mantissa/exponent and computes the real product or quotient as an exact rational; a returned value must be the truncation toward zero of a number within relative 2^-52 of it, exactly x*k when that is an exactly representable integer below 2^53, and errors must be classified as the property states (NaN -> invalid number, infinite result -> numeric overflow, zero divisor -> divide by zero first, finite out-of-range -> interval range); (-x)*k = -(x*k) = x*(-k) is compared directly.",
         "Trusted: refmodel/exact.rs (big-integer rational arithmetic, unit-tested). Only the operand alphabet is covered, not all doubles; exactness beyond the 2^-52 band is demanded for multiplication only, as the property states. Two-step call histories over a small structured alphabet run on fresh threads.",
         "DESIGN.md §4 C14",
     ),
     "C16": (
         "exhaustive enumeration of all dates x whole-second critical times x 5 sub-second parts for the conversions; BFS closure with the whole-second invariant on every Oracle-date result; pool cross products; exact-rational nearest-second and correctly-rounded-double oracles",
-        "Every conversion of a timestamp to the Oracle-style date (all dates, critical seconds, sub-second 0/1/499999/500000/999999, also before 1970) must floor to the second; every Oracle-style date produced anywhere in the op-table closure must be a whole second inside the range and equal the exact reference where one exists; adding intervals must equal the timestamp result floored; add_days/sub_days (and the Timestamp::oracle_* variants) must be the nearest second of the exact-rational timestamp result at base dates over the whole range; sub_date must be the correctly rounded quotient for pool^2 and all dates against first/epoch/last.",
+        "Every conversion of a timestamp to the Oracle-style date (all dates, critical seconds, sub-second 0/1/499999/500000/999999, also before 1970) must floor to the second; every Oracle-style date produced anywhere in the op-table closure must be a whole second inside the range and equal the exact reference where one exists; adding intervals must equal the timestamp result floored; add_days/sub_days (and the Timestamp::oracle_* variants) must be the nearest second of the exact-rational timestamp result at base dates over the whole range; sub_date must be the correctly rounded quotient for pool^2 and all dates against first/epoch/last. The raw constructor may reject an instant with a sub-second part or floor it; fractional-day sums that lie less than half a second before the first instant may fail or round to the first second (both admitted by the wording).",
         "Trusted: exact.rs; day-offset alphabet and base dates are a subset of the f64 x i64 space.",
         "DESIGN.md §4 C16",
     ),
@@ -114,7 +114,7 @@ CHECKS = {
     ),
     "C15": (
         "exhaustive enumeration: all dates (Date, OracleDate x 3 times), all seconds, timestamps every 86,399.999983 s across the range, boundary pools of all types through serde_json and bincode; raw-integer limits through bincode; complete single-edit neighbourhood of canonical JSON strings",
-        "Every enumerated value is serialized and deserialized in both forms by the real code: identity, the human-readable text equals the fixed layout rendered by the reference, the binary form equals the raw count; every raw integer at the range limits +/-1 and the integer extremes (and sub-second payloads for the Oracle-style date) must decode to the same in-range value or fail; every single substitution / deletion / insertion of 20 symbols at every position of canonical strings, plus JSON numbers / null / booleans / empty string, must fail or yield an in-range value.",
+        "Every enumerated value is serialized and deserialized in both forms by the real code: identity, the human-readable text equals the fixed layout rendered by the reference, the binary form equals the raw count; every raw integer at the range limits +/-1 and the integer extremes (and sub-second payloads for the Oracle-style date) must decode to the same in-range value or fail; every single substitution / deletion / insertion of 20 symbols at every position of canonical strings, plus JSON numbers / null / booleans / empty string, must fail or yield an in-range value. A payload that is not the encoding of a value (out-of-range or sub-second raw count, integer of another width) must fail or yield a value inside the documented range - whole seconds for the Oracle-style date - exactly as the property states; that it must not be a wrapped or clamped number is C02's statement and is decided there.",
         "Trusted: serde_json, bincode (default fixed-width little-endian configuration), serde's value deserializers, reference renderer. Decoding also goes through from_value, from_reader, escaped strings, containers (Vec, Option, map value, map key, tuple) and typed scalars of every integer width. Multi-edit malformed strings are not enumerated.",
         "DESIGN.md §4 C15",
     ),
